@@ -145,6 +145,17 @@ CLAIMS = {
         "is not repaired here, printed as KNOWN-FINDING. A repair that consults the log is decided by the same check (the cursor already serves that table); a partial "
         "repair (same version only) shows as a new violation (signature ...:older). Outside: convergence of deletion records across peers, edges, the pull protocol.",
    design='DESIGN.md §3 C11'),
+ 'C18': dict(
+   level='model_checking',
+   text="Room-definition kernel, last step only. The RoomNodeWrite arm of AuthorisationService::process_message (what runs when the writer reports on a synchronised room "
+        "definition) is executed from MIR - the coroutine is run through its awaits - on a symbolic RoomNode (1 admin, 1 group, 1-2 entries per list, symbolic dates and "
+        "flags), for a successful and a failed write, with the room already registered or not. z3 / structural comparison show: after a successful write the room is "
+        "registered, exactly one room-modified event is sent and the room it carries and the room registered are the definition RoomNode::parse gives for what was "
+        "written, and the write is acknowledged; after a failed write nothing is registered or announced and the failure is reported. Sampled paths and counterexamples "
+        "are replayed on the real async fn with a real EventService subscriber, writer handle and reply channel.",
+   note="Only this: that the writer reports every committed definition, local room mutations (RoomMutationWrite re-validates a MutationQuery), every data-changed event "
+        "(built from the SQL recomputation pass in a spawned loop) and the broadcast channel are outside. Most of C18 is therefore NOT covered.",
+   design='DESIGN.md §3 C18'),
  'C19': dict(
    level='model_checking',
    text="Handshake and invitation-consumption kernels. (a) PeerManager::invite_accepted (an async fn over six database awaits) is executed from MIR to completion in one "
@@ -202,7 +213,6 @@ NA = {
  'C13': "crash points / WAL durability / rollback are SQLite behaviour behind FFI; rusqlite::Connection cannot be made symbolic",
  'C16': "a schedule property of reader pool + actor + writer threads over SQLite; Kani/mirsym do not handle concurrency",
  'C17': "the index is SQLite FTS5; extract_json alone says nothing about matches",
- 'C18': "events come from the SQL recomputation pass and tokio broadcast channels",
 }
 PENDING = "driver not finished yet (DESIGN.md §6 build order); not claimed until it runs end to end"
 
